@@ -8,6 +8,13 @@ import sys
 import tempfile
 
 
+def _tuplify(x):
+    """JSON turned the tuples of a chunk payload into lists; work functions unpack and hash them as tuples."""
+    if isinstance(x, list):
+        return tuple(_tuplify(y) for y in x)
+    return x
+
+
 def main():
     ap = argparse.ArgumentParser(prog="vmc")
     ap.add_argument("prop")
@@ -62,6 +69,23 @@ def main():
     if args.replay:
         with open(args.replay, encoding="utf-8") as f:
             rp = json.load(f)
+        if rp.get("state_dependent") and rp.get("chunk"):
+            # the case fails only after the cases before it in its chunk: run the chunk's work function on its payload
+            from . import runner
+
+            wname = rp["chunk"]["work"].rsplit(".", 1)
+            work = getattr(importlib.import_module(wname[0]), wname[1])
+            runner.Acc.watch, runner.Acc.watch_hit = (rp["oracle"], runner.jdump(rp["case"])), False
+            try:
+                work(_tuplify(rp["chunk"]["payload"]), frozenset(), lambda i: None)
+            except BaseException:
+                pass
+            if runner.Acc.watch_hit:
+                print("VIOLATION property=%s replay=%s" % (prop, os.path.abspath(args.replay)))
+                print("  oracle=%s reproduced by re-running its chunk (state left behind by an earlier case)" % rp["oracle"])
+                return 1
+            print("replay: no violation reproduced for", args.replay)
+            return 0
         res = mod.replay(rp["case"])
         res = [r for r in res if r["oracle"] == rp["oracle"]] if rp.get("oracle") else res
         if res:
